@@ -1,7 +1,7 @@
 (* History.v — the text of /repo *before* each "fix:" commit, kept so that the
    witnesses that motivated the fixes stay machine-checked (`_refuted` theorems).
    Nothing else depends on this file. *)
-From CCTZ Require Import Base Cal SrcConstants CivilImpl FixedImpl PosixImpl.
+From CCTZ Require Import Base Cal SrcConstants CivilImpl FixedImpl PosixImpl ZoneLoad.
 Local Open Scope Z_scope.
 
 (* ---- F1 (C04): n_mon before the fix did `y += m / 12` and then `y -= 1`. *)
@@ -118,3 +118,42 @@ Theorem posix_dropped_rule_refuted :
   date_unset (ParsePosixSpec_prefix s2) = true /\ ParsePosixSpec s2 = None /\
   date_unset (ParsePosixSpec_prefix s3) = true /\ ParsePosixSpec s3 = None.
 Proof. vm_compute. repeat split; reflexivity. Qed.
+
+(* ---- F10 (C12): before the fix the default-type search used an 8-bit index
+   compared against typecnt (a 31-bit header count): with more than 256 types,
+   the first 256 of them DST, it wrapped from 255 to 0 and never terminated. *)
+Fixpoint dflt_up_u8 (fuel : nat) (types : list ttype) (typecnt index : Z) : res Z :=
+  match fuel with
+  | O => Err Fuel
+  | S f =>
+      if index =? typecnt then OK index else
+      do ty <- nth_res types index ;;
+      if tt_isdst ty then dflt_up_u8 f types typecnt ((index + 1) mod 256) else OK index
+  end.
+
+Definition dst_type : ttype := mkTT 3600 epoch epoch true 0.
+
+Lemma nth_res_repeat (n : nat) (i : Z) : 0 <= i < Z.of_nat n -> nth_res (repeat dst_type n) i = OK dst_type.
+Proof.
+  intros Hi. unfold nth_res. destruct (i <? 0) eqn:E; [lia|].
+  assert (H : nth_error (repeat dst_type n) (Z.to_nat i) = Some dst_type).
+  { assert (Hlt : (Z.to_nat i < n)%nat) by lia.
+    revert Hlt. generalize (Z.to_nat i). clear. intros k. revert k.
+    induction n as [|n IH]; intros k Hk; [lia|]. destruct k; simpl; [reflexivity|]. apply IH. lia. }
+  rewrite H. reflexivity.
+Qed.
+
+(* for EVERY amount of fuel the pre-fix search on 300 DST types is still running *)
+Theorem default_type_search_diverges_refuted :
+  forall fuel i, 0 <= i < 256 -> dflt_up_u8 fuel (repeat dst_type 300) 300 i = Err Fuel.
+Proof.
+  induction fuel as [|f IH]; intros i Hi; [reflexivity|].
+  cbn [dflt_up_u8]. destruct (i =? 300) eqn:E; [lia|].
+  rewrite nth_res_repeat by lia. cbn [bind dst_type tt_isdst].
+  apply IH. apply Z.mod_pos_bound. lia.
+Qed.
+
+(* ... while the post-fix search terminates on the same data *)
+Example default_type_search_fixed :
+  dflt_up 301 (repeat dst_type 300) 300 0 = OK 300.
+Proof. vm_compute. reflexivity. Qed.
